@@ -52,7 +52,9 @@ type Case struct {
 	// everything that follows its handshake response (inline seed frame ‖ early data frames) and
 	// response ‖ tampered bytes are released to the client cut by Chunk ("respat" N = one cut N
 	// bytes after the end of the response, "whole" = ONE segment)
-	Early []int `json:"early,omitempty"` // the caller keeps calling Read after the first error: so many more error-returning Reads
+	Early []int `json:"early,omitempty"`
+	// full-duplex family: nothing is tampered with; both endpoints read and write at once
+	Duplex *o4pair.DuplexOpts `json:"duplex,omitempty"` // the caller keeps calling Read after the first error: so many more error-returning Reads
 }
 
 type verdict struct {
@@ -503,7 +505,38 @@ func (x *runner) runHS(c Case, o *Outcome) {
 	}
 }
 
+// runDuplex: honest traffic, both directions at once from real goroutines.
+func (x *runner) runDuplex(c Case, o *Outcome) {
+	pr, err := o4pair.Setup(c.P, o4pair.SetupOpts{Hello: o4pair.Chunker{Kind: "whole"}, Resp: o4pair.Chunker{Kind: "whole"}})
+	if errors.Is(err, o4pair.ErrF2) {
+		o.Skipped = "F2"
+		return
+	}
+	if err != nil {
+		o.V = &verdict{"handshake-failed", err.Error()}
+		return
+	}
+	defer pr.Close()
+	sig, desc, st := pr.Duplex(*c.Duplex)
+	for k, v := range st {
+		o.Stats[k] = v
+	}
+	o.Class = "full-duplex-honest"
+	o.ErrClass = "none"
+	if sig == "duplex-panic-in-write" && strings.Contains(desc, "iat length was 0") {
+		o.Skipped = "F2"
+		return
+	}
+	if sig != "" {
+		o.V = &verdict{sig, desc}
+	}
+}
+
 func (x *runner) runCase(c Case, o *Outcome) {
+	if c.Duplex != nil {
+		x.runDuplex(c, o)
+		return
+	}
 	if len(c.Early) > 0 {
 		x.runHS(c, o)
 		return
@@ -853,6 +886,25 @@ func pickIAT(rng *vlib.Rng) int {
 	return 0
 }
 
+// genDuplex: both endpoints read and write simultaneously (one reader and one writer goroutine
+// per endpoint, as the relay's copy loop does); position-dependent, direction-specific content.
+func genDuplex(rng *vlib.Rng, i int, thorough bool) Case {
+	iat := 0
+	total := [2]int{rng.Range(1, 3) << 20, rng.Range(1, 3) << 20}
+	if thorough {
+		total = [2]int{rng.Range(2, 6) << 20, rng.Range(2, 6) << 20}
+	}
+	if i%4 == 3 {
+		iat = 1 + (i/4)%2
+		total = [2]int{rng.Range(40, 128) << 10, rng.Range(40, 128) << 10}
+	}
+	c := Case{Name: fmt.Sprintf("duplex-%d", i), P: o4pair.RandomParams(rng, iat, i%5 == 4)}
+	c.Duplex = &o4pair.DuplexOpts{Total: total, Seed: rng.U64(), Rechunk: i%2 == 1,
+		WSizes: [][]int{{4096}, {1, 1427, 1428, 32768, 100}, {32768}, {1448, 7, 65536}}[i%4],
+		RSizes: [][]int{{32768}, {4096, 1, 70000}, {1427}, {32768, 100}}[(i/2)%4]}
+	return c
+}
+
 func genRandom(rng *vlib.Rng, i int) Case {
 	iat := pickIAT(rng)
 	c := Case{Name: fmt.Sprintf("random-%d", i), P: o4pair.RandomParams(rng, iat, rng.Intn(4) == 0), Dir: rng.Intn(2)}
@@ -964,6 +1016,15 @@ func (a *agg) record(o Outcome) {
 		a.noDriver++
 	}
 	// non-trivial: the tampered stream differs from the honest one before its end and reaches the decoder
+	if c.Duplex != nil {
+		r.Case(caseKey(c), o.Stats["delivered-c2s"] > 0 && o.Stats["delivered-s2c"] > 0)
+		r.Count("family", "duplex")
+		r.Count("duplex-bytes-each-way", fmt.Sprintf("%dKiB/%dKiB iat=%d", c.Duplex.Total[0]>>10, c.Duplex.Total[1]>>10, c.P.IAT))
+		if v := o.V; v != nil {
+			r.Violate(v.Sig, "impl-oracle", fmt.Sprintf("[%s] %s", c.Name, v.Desc), c)
+		}
+		return
+	}
 	r.Case(caseKey(c), o.Class == "altered" || o.Class == "truncated")
 	r.Count("family", familyOf(c.Name))
 	r.Count("tamper", c.T.Op)
@@ -1280,6 +1341,15 @@ func main() {
 			}
 			run(cs)
 		}
+	}
+	// (3c) full duplex: both endpoints reading and writing simultaneously
+	{
+		n := r.Scale(8, 32)
+		cs := make([]Case, n)
+		for i := range cs {
+			cs[i] = genDuplex(rng.Fork(), i, r.Thorough())
+		}
+		run(cs)
 	}
 	// (4) random tampers: all operators, IAT modes, both victims, warm-up traffic
 	{
